@@ -157,3 +157,12 @@ chk("C12", MC,
     "requests' cancellation/failure never changes its outcome; an oversize request fails and the master does not stall.",
     PY_NOTE + " asyncio's FIFO ready queue is taken as contract (no artificial reordering).",
     "symbolic execution of the real coroutines on a deterministic event loop with solver-chosen faults/cancellation (z3)", "B:8/C12")
+
+chk("C30", MC,
+    "The real SyncGroup.start/update_devices and SyncGroupBase.run (with the real map_fmmu, to_operational, set_state, "
+    "roundtrip_packet, datagram_received, PacketVar.get/set) run on the deterministic event loop with virtual time against a "
+    "datagram-level terminal model and a frame-level stub for the cyclic frame: per cycle the returned input data, every returned "
+    "16-bit working counter and the values devices write are solver variables. Obligations over 2 (3..5) cycles: devices see the "
+    "inputs of the latest response before update, outputs set in cycle k are in frame k+1, every working counter is zero in each "
+    "re-sent frame, the error count grows by exactly one per datagram whose counter differs from the expected value.",
+    PY_NOTE, "symbolic execution of the real cyclic coroutine on a deterministic event loop with symbolic bus data (z3)", "B:8/C30")
